@@ -3,7 +3,7 @@
   encoding of terms / substitutions, and the canonical encoding of results.
   (Not part of the verified model; part of the trusted correspondence check.)
 -/
-import SuironVerif.Model.Unify
+import SuironVerif.Model.Engine
 namespace Suiron.Codec
 
 def hexDigit (c : Char) : Option Nat :=
@@ -71,7 +71,7 @@ partial def encTerm : Term → String
   | .nil => "N"
   | .anon => "_"
   | .atom s => "A:" ++ hex s
-  | .flt b => "F:" ++ toString b.toNat
+  | .flt b => "F:" ++ toString (if fIsNaN b then 0x7ff8000000000000 else b.toNat)
   | .int i => "I:" ++ toString i
   | .var id s => "V:" ++ toString id ++ ":" ++ hex s
   | .cplx args => "C:" ++ toString args.length ++ String.join (args.toList.map fun t => " " ++ encTerm t)
@@ -105,5 +105,55 @@ def encRes {α} (enc : α → String) : Res α → String
   | .fail => "fail"
   | .panic => "panic"
   | .oof => "oof"
+
+
+/-! goals, rules -/
+partial def decGoal : List String → Option (Goal × List String)
+  | [] => none
+  | tok :: rest =>
+    match tok.splitOn ":" with
+    | ["G0"] => some (.nil, rest)
+    | ["Gc"] => do
+      let (t, r) ← decTerm rest
+      pure (.call t, r)
+    | ["Gb", h, has, n] => do
+      let name ← unhex h
+      let k ← n.toNat?
+      if has == "1" then
+        let (ts, r) ← decTerm.decTerms k rest
+        pure (.bip name (some (TermList.ofList ts)), r)
+      else pure (.bip name none, rest)
+    | [tag, n] => do
+      let k ← n.toNat?
+      let (gs, r) ← decGoals k rest
+      let gl := GoalList.ofList gs
+      match tag with
+      | "Ga" => pure (.and gl, r)
+      | "Go" => pure (.or gl, r)
+      | "Gt" => pure (.time gl, r)
+      | "Gn" => pure (.not gl, r)
+      | _ => none
+    | _ => none
+where
+  decGoals : Nat → List String → Option (List Goal × List String)
+    | 0, r => some ([], r)
+    | k+1, r => do
+      let (g, r1) ← decGoal r
+      let (gs, r2) ← decGoals k r1
+      pure (g :: gs, r2)
+
+def decRule : List String → Option (Rule × List String)
+  | "R" :: rest => do
+    let (h, r1) ← decTerm rest
+    let (b, r2) ← decGoal r1
+    pure (⟨h, b⟩, r2)
+  | _ => none
+
+def decRules : Nat → List String → Option (List Rule × List String)
+  | 0, r => some ([], r)
+  | k+1, r => do
+    let (x, r1) ← decRule r
+    let (xs, r2) ← decRules k r1
+    pure (x :: xs, r2)
 
 end Suiron.Codec
